@@ -38,8 +38,8 @@ SAFE_CHARS = "abcdefghijklmnopqrstuvwxyzABCDEFGHIJKLMNOPQRSTUVWXYZ0123456789 _.,
 NUMV = ["va", "vb", "vc", "vd", "ve", "vf", "averyveryverylongnamx", "averyveryverylongnamy", "Vg"]
 TNTV = ["ta", "tb"]
 STRV = ["sa$", "sb$", "sc$"]
-ARRS = [("qa", [6]), ("qb", [3, 4])]
-SARRS = [("sq$", [6]), ("sr$", [3, 3])]          # string arrays
+ARRS = [("qa", [6]), ("qb", [3, 4]), ("qc", [2, 3, 4])]      # names; qb/qc/sr$ extents are drawn per program (Gen.arrs / Gen.sarrs)
+SARRS = [("sq$", [6]), ("sr$", [3, 4])]          # string arrays
 LOOPV = ["ii", "jj", "kk"]
 SUBV = ["ma", "mb"]
 PREC = {"OR": 0, "XOR": 0, "AND": 1, "=": 2, "<": 2, ">": 2, "<=": 2, ">=": 2, "<>": 2, "+": 3, "-": 3, "*": 4, "/": 4, "MOD": 4, "^": 5}
@@ -72,6 +72,12 @@ class Gen:
         self.data = []              # DATA items (kind, text)
         self.data_read = 0
         self.feat = set()
+        # array extents differ per program and per dimension: the row-major offset of a(i,j[,k]) depends on every extent
+        d1, d2 = rng.randint(2, 5), rng.randint(2, 5)
+        if d1 == d2 and rng.random() < 0.8:
+            d2 = d2 + 1 if d2 < 5 else d2 - 2
+        self.arrs = [("qa", [6]), ("qb", [d1, d2]), ("qc", [rng.randint(2, 3), rng.randint(2, 4), rng.randint(2, 4)])]
+        self.sarrs = [("sq$", [6]), ("sr$", [rng.randint(3, 4), rng.randint(3, 5)])]
 
     def new_id(self):
         self.nid += 1
@@ -96,7 +102,7 @@ class Gen:
         if ctx.get("sub"):
             pool += SUBV
         if r.random() < 0.25:
-            a, dims = r.choice(ARRS)
+            a, dims = r.choice(self.arrs)
             return ("raw", "%s(%s)" % (a, ", ".join(self.index(d, ctx) for d in dims)), 6)
         return ("v", r.choice(pool))
 
@@ -196,7 +202,7 @@ class Gen:
 
     def selem(self, ctx, arr=None):
         """element of a string array"""
-        a, dims = arr or self.r.choice(SARRS)
+        a, dims = arr or self.r.choice(self.sarrs)
         return ("raw", "%s(%s)" % (a, ", ".join(self.index(d, ctx) for d in dims)), 6)
 
     def sexpr(self, depth, ctx):
@@ -307,6 +313,61 @@ class Gen:
         self.outs[k] = items
         return "@O%d@" % k
 
+    def sweep(self, ctx, fill_only=False):
+        """fill every element of a multi-dimensional array with a value that identifies its subscripts and/or read every
+        element back (PUNCH each, or a position-weighted checksum): any two distinct elements that share storage show up"""
+        r = self.r
+        self.feat.add("array_sweep")
+        isstr = r.random() < 0.3
+        a, dims = (self.sarrs[1] if isstr else r.choice(self.arrs[1:]))
+        vs = LOOPV[:len(dims)]
+        elem = "%s(%s)" % (a, ", ".join(vs))
+        emitted = 0
+
+        def loops(body_lines):
+            nonlocal emitted
+            order = list(range(len(dims)))
+            if r.random() < 0.4:
+                r.shuffle(order)              # column-major / mixed traversal
+            hdrs = []
+            for q in order:
+                if r.random() < 0.7:
+                    hdrs.append("FOR %s = 0 TO %d" % (vs[q], dims[q] - 1))
+                else:
+                    hdrs.append("FOR %s = %d TO 0 STEP -1" % (vs[q], dims[q] - 1))
+            nxt = ["NEXT %s" % vs[q] for q in reversed(order)]
+            if r.random() < 0.4 and len(body_lines) == 1:
+                self.emit(" : ".join(hdrs + body_lines + nxt))
+                emitted += 1
+            else:
+                for h in hdrs:
+                    self.emit(h)
+                for b in body_lines:
+                    self.emit(b)
+                for x in nxt:
+                    self.emit(x)
+                emitted += len(hdrs) + len(body_lines) + len(nxt)
+        what = "fill" if fill_only else r.choice(["fill", "dump", "both", "both", "sum"])
+        if what in ("fill", "both"):
+            if isstr:
+                val = " + ".join("CHR$(%d + %s)" % (65 + 8 * q, v) for q, v in enumerate(vs))
+            else:
+                val = " + ".join("%s * %d" % (v, 10 ** (len(vs) - 1 - q)) for q, v in enumerate(vs)) + " + %d" % r.randint(1, 9)
+            loops(["%s = %s" % (elem, val)])
+        if what in ("dump", "both"):
+            k = len(self.outs)
+            self.outs[k] = [("str" if isstr else "num", elem)]
+            loops(["@O%d@" % k])
+        if what == "sum":
+            acc = "sc$" if isstr else "vc"
+            self.emit("%s = %s" % (acc, '""' if isstr else "0"))
+            loops(["%s = %s" % (acc, ("%s + %s + \"/\"" % (acc, elem)) if isstr else ("%s * 3 + %s" % (acc, elem)))])
+            k = len(self.outs)
+            self.outs[k] = [("str" if isstr else "num", acc)]
+            self.emit("@O%d@" % k)
+            emitted += 2
+        return emitted
+
     def simple(self, ctx):
         r = self.r
         k = r.random()
@@ -315,7 +376,7 @@ class Gen:
             let = "LET " if r.random() < 0.15 else ""
             return "%s%s = %s" % (let, v, self.pr(self.cexpr(r.randint(1, 4), ctx), 0))
         if k < 0.40:
-            a, dims = r.choice(ARRS)
+            a, dims = r.choice(self.arrs)
             rhs = self.cexpr(2, ctx)
             if r.random() < 0.4:      # right-hand side reads other elements of the same array
                 other = ("raw", "%s(%s)" % (a, ", ".join(self.index(d, ctx) for d in dims)), 6)
@@ -327,7 +388,7 @@ class Gen:
             # element of a string array; half of the time the right-hand side reads OTHER elements of the same array
             # (the target slot must be the one addressed on the left, whatever the right-hand side touches)
             self.feat.add("string_array")
-            arr = r.choice(SARRS)
+            arr = r.choice(self.sarrs)
             rhs = self.sexpr(2, ctx)
             if r.random() < 0.6:
                 parts = [self.selem(ctx, arr) for _ in range(r.randint(1, 2))] + [rhs]
@@ -463,6 +524,8 @@ class Gen:
                     self.emit("GOTO @L%d@" % end)
                 self.emit("REM end on", end)
                 n -= 2 * m + 2
+            elif k < 0.905 and not ctx.get("sub") and not ctx.get("loopvars"):
+                n -= self.sweep(ctx)
             elif k < 0.925 and not ctx.get("sub") and len(ctx.get("loopvars", [])) < len(LOOPV):
                 # shift loop: every element is assigned from its neighbour in the same array
                 self.feat.add("shift_loop")
@@ -474,7 +537,7 @@ class Gen:
                     a, body = "qa", "qa(%s) = qa(%s - 1)%s" % (v, v, r.choice(["", " + 1", " * 2 + qa(0)"]))
                 else:
                     a, body = "sr$", "sr$(%s, 1) = sr$(%s - 1, 2) + sr$(%s - 1, 1)" % (v, v, v)
-                hi = 5 if a != "sr$" else 2
+                hi = 5 if a != "sr$" else self.sarrs[1][1][0] - 1
                 if r.random() < 0.5:
                     hdr = "FOR %s = %d TO 1 STEP -1" % (v, hi)
                 else:
@@ -519,7 +582,9 @@ class Gen:
     def program(self):
         r = self.r
         ctx = {"allow_bad": r.random() < 0.03}
-        self.emit("DIM " + ", ".join("%s(%s)" % (a, ", ".join(str(d - 1) for d in dims)) for a, dims in ARRS + SARRS))
+        self.emit("DIM " + ", ".join("%s(%s)" % (a, ", ".join(str(d - 1) for d in dims)) for a, dims in self.arrs + self.sarrs))
+        if r.random() < 0.6:
+            self.sweep(ctx, fill_only=True)
         if r.random() < 0.5:
             self.emit("REM generated program ' with \" quotes : and colons")
         self.block(self.size, 0, ctx)
@@ -621,6 +686,18 @@ CORPUS.append(["10 DIM a$(3), t$(4), n(4), m$(2, 2)", "20 a$(1) = \"ab\"", "30 a
                "110 PUNCH n(0), n(1), n(2), n(3), n(4)", "120 n(n(0)) = n(n(0) + 1) + n(0) : PUNCH n(1), n(2)",
                "130 m$(1, 1) = \"p\" : m$(2, 2) = m$(1, 1) + m$(0, 0) + \"q\" : m$(0, 1) = m$(2, 2) + m$(1, 1) : PUNCH m$(1, 1), m$(2, 2), m$(0, 1), m$(0, 0) + \"|\"",
                "140 DATA \"r\", 7", "150 READ a$(0), n(2) : a$(0) = a$(0) + a$(1) : PUNCH a$(0), n(2), a$(1)"])
+
+# multi-dimensional arrays with unequal extents: every element gets its own storage (row-major, all extents matter)
+CORPUS.append(["10 DIM a(2, 5), b(1, 2, 3), c(4, 2), s$(1, 3)",
+               "20 FOR i = 0 TO 2 : FOR j = 0 TO 5 : a(i, j) = i * 10 + j + 1 : NEXT j : NEXT i",
+               "30 FOR i = 0 TO 2 : FOR j = 0 TO 5 : PUNCH a(i, j) : NEXT j : NEXT i",
+               "40 FOR i = 0 TO 1 : FOR j = 0 TO 2 : FOR k = 0 TO 3 : b(i, j, k) = i * 100 + j * 10 + k + 1 : NEXT k : NEXT j : NEXT i",
+               "50 FOR k = 3 TO 0 STEP -1 : FOR j = 0 TO 2 : FOR i = 0 TO 1 : PUNCH b(i, j, k) : NEXT i : NEXT j : NEXT k",
+               "60 FOR j = 0 TO 2 : FOR i = 0 TO 4 : c(i, j) = i * 10 + j + 1 : NEXT i : NEXT j",
+               "70 t = 0 : FOR i = 0 TO 4 : FOR j = 0 TO 2 : t = t * 3 + c(i, j) : NEXT j : NEXT i : PUNCH t, c(4, 2), c(0, 2), c(1, 0)",
+               "80 FOR i = 0 TO 1 : FOR j = 0 TO 3 : s$(i, j) = CHR$(65 + i) + CHR$(97 + j) : NEXT j : NEXT i",
+               "90 FOR i = 0 TO 1 : FOR j = 0 TO 3 : PUNCH s$(i, j) : NEXT j : NEXT i",
+               "100 a(0, 3) = 77 : PUNCH a(1, 0), a(0, 3) : a(1, 0) = 88 : PUNCH a(0, 3)"])
 
 MALFORMED_CORPUS = [
     ["10 PUNCH (1 + 2"], ["10 PUNCH 1 + 2)"], ["10 PUNCH \"abc"], ["10 PUNCH 1 2"], ["10 x = = 1"], ["10 IF 1 PUNCH 2"],
